@@ -32,8 +32,9 @@ from framework import default_compare
 
 
 class MemBackend(TrialBackend):
-    def __init__(self, delete_checkpoints=False, delayed_stop=False):
+    def __init__(self, delete_checkpoints=False, delayed_stop=False, coarse_clock=1):
         super().__init__(delete_checkpoints=delete_checkpoints)
+        self.coarse_clock = max(1, int(coarse_clock))   # > 1: the worker's clock is coarse, consecutive reports share a time stamp
         self.env = {}
         self.ckpt = set()
         self.delayed_stop = delayed_stop
@@ -46,7 +47,7 @@ class MemBackend(TrialBackend):
         e = self.env.get(t)
         if e is not None and e["proc"] == "running":
             for _ in range(n):
-                e["out"].append({"run": e["run"], "idx": e["nrep"], ST_WORKER_TIMESTAMP: self.clock})
+                e["out"].append({"run": e["run"], "idx": e["nrep"], ST_WORKER_TIMESTAMP: self.clock // self.coarse_clock})
                 self.emitted.append((t, e["run"], e["nrep"]))
                 e["nrep"] += 1
                 self.clock += 1
@@ -435,7 +436,7 @@ def make(ctor):
                                  root=tempfile.mkdtemp(prefix="c02local"))
     else:
         be = MemBackend(delete_checkpoints=bool(ctor.get("delete_checkpoints", False)),
-                        delayed_stop=bool(ctor.get("delayed_stop", False)))
+                        delayed_stop=bool(ctor.get("delayed_stop", False)), coarse_clock=ctor.get("coarse_clock", 1))
     sch = ScriptedScheduler(be)
     tuner = Tuner(trial_backend=be, scheduler=sch, stop_criterion=lambda status: False, n_workers=10 ** 6,
                   tuner_name="c02-poll", suffix_tuner_name=False, save_tuner=False, callbacks=[])
